@@ -6,21 +6,27 @@ GOENV := GOFLAGS=-mod=mod GOPROXY=off GOSUMDB=off GOTOOLCHAIN=local
 VFILES := $(shell grep '\.v$$' coq/_CoqProject)
 MODEL_DEPS := $(addprefix coq/,$(filter-out Props/% Proofs/%,$(VFILES)))
 
-.PHONY: setup coq coq-target model harness harness-race coqchk clean
+.PHONY: setup coq coq-target model harness harness-race coqchk clean gen
+
+# translator: the precedence table of the generated expression parser, extracted from /repo's
+# current source into coq/Generated/ExprTable.v (rewritten only when it changes)
+gen:
+	python3 tools/gen_exprtable.py
 
 setup: coq model harness harness-race
 
 $(COQMF): coq/_CoqProject
 	cd coq && coq_makefile -f _CoqProject -o Makefile.coq >/dev/null
 
-coq: $(COQMF)
+coq: gen $(COQMF)
 	cd coq && timeout 3000 $(MAKE) -f Makefile.coq -j16
 
 # one target and what it depends on (a broken proof elsewhere does not stop this property)
-coq-target: $(COQMF)
+coq-target: gen $(COQMF)
 	cd coq && timeout 3000 $(MAKE) -f Makefile.coq -j16 $(T)
 
-model: ocaml/model
+model: gen
+	$(MAKE) ocaml/model
 
 ocaml/model: $(MODEL_DEPS) coq/Extract/Extract.v ocaml/driver.ml $(COQMF)
 	cd coq && timeout 3000 $(MAKE) -f Makefile.coq -j16 Extract/Dispatch.vo
